@@ -126,6 +126,8 @@ pub struct Node {
     pub fin_script: Cell<u8>,
     pub drop_script: Cell<u8>,
     pub cells: [RefCell<Option<Cc<Node>>>; S],
+    /// traced bag of self-references (saturation lens: the tracing counter must cope with counts at the limit)
+    pub bag: RefCell<Vec<Cc<Node>>>,
     #[cfg(feature = "weak")]
     pub wcell: RefCell<Option<Weak<Node>>>,
     #[cfg(feature = "cleaners")]
@@ -143,6 +145,7 @@ impl Node {
             fin_script: Cell::new(0),
             drop_script: Cell::new(0),
             cells: Default::default(),
+            bag: RefCell::new(Vec::new()),
             #[cfg(feature = "weak")]
             wcell: RefCell::new(None),
             #[cfg(feature = "cleaners")]
@@ -173,6 +176,7 @@ unsafe impl Trace for Node {
             self.cells[s].trace(ctx);
             crash_point(CpKind::Trace);
         }
+        self.bag.trace(ctx);
         // The untraced cell is deliberately not traced. Weak and Cleaner must report nothing: tracing them here
         // lets every weak / cleaner lens notice an impl that starts reporting a pointer it does not own.
         #[cfg(feature = "weak")]
@@ -223,6 +227,8 @@ pub struct MObj {
     pub fin_calls: u32,
     pub drop_calls: u32,
     pub cells: [Option<u8>; S],
+    /// number of self-references parked in the object's own traced bag
+    pub bag_self: u32,
     pub wcell: Option<WRef>,
     pub fin_script: u8,
     pub drop_script: u8,
@@ -258,6 +264,7 @@ impl MObj {
             fin_calls: 0,
             drop_calls: 0,
             cells: [None; S],
+            bag_self: 0,
             wcell: None,
             fin_script: 0,
             drop_script: 0,
@@ -419,6 +426,9 @@ impl Model {
             }
         }
         n += self.stash_strong[o];
+        if self.objs[o].value_alive() {
+            n += self.objs[o].bag_self;
+        }
         for p in 0..self.objs.len() {
             self.out_edges(p, |t, _| {
                 if t as usize == o {
